@@ -166,7 +166,7 @@ def run_one(idx, mut, relfile, props, is_py):
             env = dict(os.environ, DRF_REPO=wt, DRF_COQ=os.path.join(priv, "coq"), DRF_BUILD=os.path.join(priv, "build"),
                        DRF_EVIDENCE=os.path.join(priv, "evidence"))
             try:
-                c = subprocess.run(["bash", "-c", "ulimit -v 24000000; exec timeout 900 ./check %s --tier quick" % p],
+                c = subprocess.run(["bash", "-c", "ulimit -v 24000000; exec timeout -k 10 900 ./check %s --tier quick" % p],
                                    capture_output=True, text=True, env=env, cwd=V)
                 lines_ = [ln for ln in c.stdout.splitlines() if ln.startswith(("VIOLATION", "OK ", "KNOWN-FINDING"))]
                 sig = [re.sub(r".*replay/", "", ln.split("replay=")[1]) for ln in lines_ if "replay=" in ln][:2]
